@@ -17,7 +17,18 @@ def stub_names(mod="numpy"):
     names = None
     if cands:
         with open(cands[0], encoding="utf-8") as fh:
-            tree = ast.parse(fh.read())
+            text = fh.read()
+        try:
+            tree = ast.parse(text)
+        except SyntaxError:
+            # the stub may use syntax newer than the interpreter running the check (PEP 695 `type X = ...`)
+            import re
+            text = re.sub(r"^type\s+(\w+)(\[[^\]]*\])?\s*=", r"\1 =", text, flags=re.M)
+            try:
+                tree = ast.parse(text)
+            except SyntaxError:
+                _CACHE[mod] = None
+                return None
         names = set()
 
         def visit(body):
